@@ -46,7 +46,11 @@ type Spec struct {
 	ATPreamble   *string  `json:"at_preamble,omitempty"`
 	TokenLife    int      `json:"token_life,omitempty"`
 	Discovery    bool     `json:"discovery,omitempty"`          // endpoints from configuration_uri (in-process canned provider)
+	RichDiscovery bool    `json:"rich_discovery,omitempty"`     // ... whose document carries the full optional metadata with uncommon values
 	NoLogoutRedirect bool `json:"no_logout_redirect,omitempty"` // logout.redirect_uri not configured (must be discovered)
+	// Replicas (Redis only): 2 = two service replicas (two store instances) on one Redis server; a request names
+	// the replica that serves it (sequential histories only)
+	Replicas int `json:"replicas,omitempty"`
 }
 
 const (
@@ -64,6 +68,8 @@ type World struct {
 	now     time.Time
 	Clock   oidc.Clock
 	Raw     oidc.SessionStore
+	Raw2    oidc.SessionStore // the second replica's store instance (Spec.Replicas == 2)
+	rclient2 *redis.Client
 	Store   *SpyStore
 	Factory oidc.SessionStoreFactory
 	Mini    *miniredis.Miniredis
@@ -237,7 +243,7 @@ func New(spec Spec) *World {
 	}
 	if spec.Discovery {
 		EnsureDiscoveryNet()
-		cfg.ConfigurationUri = DiscoveryBase + "/.well-known/openid-configuration"
+		cfg.ConfigurationUri = DiscBaseOf(spec) + "/.well-known/openid-configuration"
 		cfg.AuthorizationUri, cfg.TokenUri, cfg.JwksConfig = "", "", nil
 	}
 	w.Cfg = cfg
@@ -255,6 +261,9 @@ func New(spec Spec) *World {
 			panic(err)
 		}
 		w.Raw = r
+		if spec.Replicas == 2 {
+			w.newReplica2(abs, idle)
+		}
 	default:
 		w.Raw = oidc.NewMemoryStore(&w.Clock, abs, idle)
 	}
@@ -290,10 +299,29 @@ func NewWithConfig(spec Spec, cfg *oidcv1.OIDCConfig) *World {
 }
 
 // Close releases the world's resources.
+func (w *World) newReplica2(abs, idle time.Duration) {
+	if w.rclient2 != nil {
+		_ = w.rclient2.Close()
+	}
+	w.rclient2 = redis.NewClient(&redis.Options{Addr: w.Mini.Addr(), MaxRetries: -1})
+	w.redisQuiet = true
+	w.rclient2.AddHook(redisHook{w})
+	r2, err := oidc.NewRedisStore(&w.Clock, w.rclient2, abs, idle)
+	w.redisQuiet = false
+	if err != nil {
+		panic(err)
+	}
+	w.Raw2 = r2
+}
+
 func (w *World) Close() {
 	if w.rclient != nil {
 		_ = w.rclient.Close()
 		w.rclient = nil
+	}
+	if w.rclient2 != nil {
+		_ = w.rclient2.Close()
+		w.rclient2 = nil
 	}
 	if w.Mini != nil {
 		Minis.Put(w.Mini)
@@ -323,6 +351,9 @@ func (w *World) CrashRestart() {
 		w.Store.Ghost = map[string]*GhostSession{}
 	}
 	w.Store.Real = w.Raw
+	if w.Mini != nil && w.Spec.Replicas == 2 {
+		w.newReplica2(abs, idle) // (a crash of the whole deployment: both replicas come back empty-handed)
+	}
 }
 
 func (w *World) Now() time.Time { return w.now }
@@ -330,13 +361,24 @@ func (w *World) Now() time.Time { return w.now }
 // DiscoveryBase is the base URL of the canned provider used by discovery worlds.
 const DiscoveryBase = "http://disc.idp.test"
 
+// DiscoveryBase2 serves the rich discovery document.
+const DiscoveryBase2 = "http://disc2.idp.test"
+
+// DiscBaseOf is the base URL of the discovery provider of a world.
+func DiscBaseOf(spec Spec) string {
+	if spec.RichDiscovery {
+		return DiscoveryBase2
+	}
+	return DiscoveryBase
+}
+
 var discOnce sync.Once
 
 // EnsureDiscoveryNet installs (once per process) the canned network with the discovery provider.
 func EnsureDiscoveryNet() {
 	discOnce.Do(func() {
 		InitKeys()
-		InstallCannedNet(map[string]Responder{"disc.idp.test": CannedIdP(DiscoveryBase, nil)}, nil)
+		InstallCannedNet(map[string]Responder{"disc.idp.test": CannedIdP(DiscoveryBase, nil), "disc2.idp.test": CannedIdPDoc(DiscoveryBase2, nil, true)}, nil)
 	})
 }
 
@@ -344,7 +386,7 @@ func EnsureDiscoveryNet() {
 // the discovered one when none is configured.
 func (w *World) ExpectedLogoutRedirect() string {
 	if w.Spec.NoLogoutRedirect {
-		return DiscoveryBase + "/logout"
+		return DiscBaseOf(w.Spec) + "/logout"
 	}
 	return LogoutRedirect
 }
@@ -424,6 +466,7 @@ type Req struct {
 	RawCookie string `json:"raw_cookie,omitempty"`
 	Host      string `json:"host,omitempty"`
 	Scheme    string `json:"scheme,omitempty"`
+	Replica   int    `json:"replica,omitempty"` // which service replica serves the request (worlds with Spec.Replicas == 2)
 }
 
 // Result is a parsed CheckResponse.
@@ -490,7 +533,7 @@ func (w *World) NewHandler() (authz.Handler, error) {
 	if err != nil {
 		return nil, err
 	}
-	authz.VerifSetHTTPClient(h, &http.Client{Transport: w.IdP})
+	authz.VerifSetIdPTransport(h, w.IdP)
 	return h, nil
 }
 
@@ -498,6 +541,13 @@ func (w *World) NewHandler() (authz.Handler, error) {
 func (w *World) Do(r Req, p Plan) Result {
 	w.CurEnv().reset(p.Faults)
 	w.CurEnv().RedisFaults = p.RedisFaults
+	if w.Raw2 != nil {
+		if r.Replica == 1 {
+			w.Store.Real = w.Raw2
+		} else {
+			w.Store.Real = w.Raw
+		}
+	}
 	if p.Answer != nil {
 		w.IdP.Mode = *p.Answer
 	} else {
